@@ -201,7 +201,7 @@ class VEx:
         return tuple(out)
 
     def operand(self, o, at, depth=0):
-        return simplify(norm_try(self._operand(o, at, depth)))
+        return simplify(self._through_variant(norm_try(self._operand(o, at, depth))))
 
     def _operand(self, o, at, depth=0):
         if depth > 40:
@@ -233,6 +233,8 @@ class VEx:
         # (None: a terminator operand / unknown = after all statements of the block)
         pos = getattr(self, "_read_pos", None)
         idx = pos[1] if pos is not None and pos[0] == at else None
+        # where the leading `*` of the place is evaluated (memory is read there, wherever the reference was made)
+        deref_at = (at, idx)
         while guard < 64:
             guard += 1
             if l == 1 and self.upvars:
@@ -256,6 +258,14 @@ class VEx:
                              d_[1] < idx and not d_[3]["p"]["p"]]
                     if cands:
                         d = max(cands, key=lambda d_: d_[1])
+                if d is None and v[0] == "phi" and v[1] >= 0 and l not in self.mw and not (1 <= l <= self.argc) and depth < 30:
+                    # a merge of definitions that all denote the same value (copies of one path made by jump threading,
+                    # `x = Ok(v)` on several routes through an inlined helper): read through the merge
+                    first = next((e_ for e_ in proj if e_ != "deref"), None)
+                    want = first if isinstance(first, tuple) and first[0] == "dc" else None
+                    same = self._merged_value(l, v[1], depth, want)
+                    if same is not None:
+                        return self._select(same, proj)
                 if d is None:
                     leaf = ("var", self.root_name(l), l, v)
                     return self._wrap(leaf, self.fields_of(proj))
@@ -269,6 +279,8 @@ class VEx:
                 didx = d[1] if isinstance(d[1], int) else None
                 if r == "use" and op_place(rv["o"]) is not None:
                     p2 = op_place(rv["o"])
+                    if p2["p"] or not (proj and proj[0] == "deref"):
+                        deref_at = (d[0], didx)
                     l, proj, at, idx = p2["l"], [proj_key(e) for e in p2["p"]] + proj, d[0], didx
                     continue
                 if r == "cfd":
@@ -276,8 +288,11 @@ class VEx:
                     l, proj, at, idx = p2["l"], [proj_key(e) for e in p2["p"]] + proj, d[0], didx
                     continue
                 if r == "ref" and proj and proj[0] == "deref":
+                    # `*r` with r = &v: the referent is read where `*r` is evaluated, not where the reference was
+                    # taken (a `&mut v` handed to an inlined helper sees the writes made through it since)
                     p2 = rv["p"]
-                    l, proj, at, idx = p2["l"], [proj_key(e) for e in p2["p"]] + proj[1:], d[0], didx
+                    l, proj = p2["l"], [proj_key(e) for e in p2["p"]] + proj[1:]
+                    at, idx = deref_at
                     continue
                 saved = getattr(self, "_read_pos", None)
                 self._read_pos = (d[0], didx) if didx is not None else None
@@ -297,6 +312,78 @@ class VEx:
                 return self._select(base, proj)
             return ("?",)
         return ("?",)
+
+    def _reaching(self, l, j, seen):
+        """definitions of l that reach the start of block j, or None when the argument / an unknown value does"""
+        if j in seen:
+            return []
+        seen.add(j)
+        out = []
+        for p in self.b.pred[j]:
+            if p not in self.b.dom:
+                continue
+            here = [d_ for d_ in self.tr.defs.get(l, []) if d_[0] == p]
+            if here:
+                if any(d_[2] not in ("assign", "call") or (d_[3]["p"]["p"] if d_[2] == "assign" else d_[3]["dest"]["p"]) for d_ in here):
+                    return None
+                term = [d_ for d_ in here if d_[2] == "call"]
+                out.append(term[0] if term else max(here, key=lambda d_: d_[1] if isinstance(d_[1], int) else -1))
+                continue
+            v = self.version(l, p)
+            if v[0] == "d":
+                ds = [d_ for d_ in self.tr.defs.get(l, []) if d_[0] == v[1]]
+                if len(ds) != 1 or ds[0][2] not in ("assign", "call"):
+                    return None
+                out.append(ds[0])
+            elif v[0] == "phi" and v[1] >= 0:
+                sub = self._reaching(l, v[1], seen)
+                if sub is None:
+                    return None
+                out.extend(sub)
+            else:
+                return None
+        return out
+
+    def _merged_value(self, l, j, depth, want=None):
+        """`want` = the variant the value is read through (`(x as Ok).0`): definitions that build another variant - or
+        the Err / None that a failing `?` rebuilds - cannot be the one read and are left out."""
+        memo = self.__dict__.setdefault("_merge_memo", {})
+        key = (l, j, want[2] if want else None)
+        if key in memo:
+            return memo[key]
+        memo[key] = None                        # (guards recursion through loops)
+        ds = self._reaching(l, j, set())
+        val = None
+        if ds and want is not None:
+            keep = []
+            for d_ in ds:
+                if d_[2] == "assign" and d_[3]["rv"]["r"] == "agg" and d_[3]["rv"].get("kind") == "adt" and \
+                        d_[3]["rv"].get("vname") != want[2]:
+                    continue
+                if d_[2] == "call" and str((d_[3].get("f") or {}).get("n")).endswith("FromResidual::from_residual") and \
+                        want[2] in ("Ok", "Some"):
+                    continue
+                keep.append(d_)
+            ds = keep
+        if ds and len(ds) <= 24:
+            uniq = {id(d_): d_ for d_ in ds}.values()
+            exprs = []
+            for d_ in uniq:
+                saved = getattr(self, "_read_pos", None)
+                try:
+                    if d_[2] == "assign":
+                        self._read_pos = (d_[0], d_[1]) if isinstance(d_[1], int) else None
+                        exprs.append(self._rvalue(d_[3]["rv"], d_[0], depth + 1))
+                    else:
+                        self._read_pos = None
+                        exprs.append(self._call(d_[3], d_[0], depth + 1))
+                finally:
+                    self._read_pos = saved
+            k0 = _modulo_pure(exprs[0])
+            if not _has_unknown(exprs[0]) and all(_modulo_pure(e_) == k0 for e_ in exprs[1:]):
+                val = exprs[0]
+        memo[key] = val
+        return val
 
     def _wrap(self, leaf, fields, l=None):
         if not fields:
@@ -372,7 +459,35 @@ class VEx:
         return ("?",)
 
     def rvalue(self, rv, bb):
-        return simplify(norm_try(self._rvalue(rv, bb, 0)))
+        return simplify(self._through_variant(norm_try(self._rvalue(rv, bb, 0))))
+
+    def _through_variant(self, e, depth=0):
+        """`x.@Ok.0` where x is a merge: only the definitions of x that build `Ok` can be read (see _merged_value) - this is
+        how the value an inlined helper returns as `Ok(v)` reaches the `?` of its caller."""
+        if not isinstance(e, tuple) or not e or depth > 30:
+            return e
+        k = e[0]
+        if k == "proj":
+            base = e[1]
+            f = tuple(e[2])
+            if base[0] == "var" and len(base) > 3 and isinstance(base[3], tuple) and base[3][0] == "phi" and base[3][1] >= 0 and \
+                    len(f) >= 2 and isinstance(f[0], str) and f[0][:1] == "@" and isinstance(f[1], str) and f[1].isdigit() and \
+                    base[2] not in self.mw and not (1 <= base[2] <= self.argc):
+                val = self._merged_value(base[2], base[3][1], depth + 1, ("dc", None, f[0][1:]))
+                if val is not None:
+                    val = unq(("proj", norm_try(val), f))
+                    if not (val[0] == "proj" and val[1] == base):
+                        return self._through_variant(val, depth + 1)
+            return ("proj", self._through_variant(base, depth + 1), e[2]) + tuple(e[3:])
+        if k in ("call", "agg"):
+            return (k, e[1], tuple(self._through_variant(a, depth + 1) for a in e[2])) + tuple(e[3:])
+        if k in ("ref", "discr", "cast"):
+            return (k, self._through_variant(e[1], depth + 1)) + tuple(e[2:])
+        if k == "bin":
+            return (k, e[1], self._through_variant(e[2], depth + 1), self._through_variant(e[3], depth + 1)) + tuple(e[4:])
+        if k == "un":
+            return (k, e[1], self._through_variant(e[2], depth + 1))
+        return e
 
     def local_ty(self, l):
         return ty_str(self.b.local_ty(l))
@@ -1010,6 +1125,30 @@ class Prover:
         return self.prove_nonneg(g, bb)
 
 
+_PURE_ANYWHERE = ("core::ops::try_trait::Try::branch", "core::ops::try_trait::FromResidual::from_residual",
+                  "core::ops::deref::Deref::deref", "core::convert::From::from", "core::convert::Into::into")
+
+
+def _modulo_pure(e):
+    """expression with the position of pure calls dropped (the same pure call on the same arguments is the same value
+    wherever it is made); other calls keep their position"""
+    if not isinstance(e, tuple):
+        return e
+    if e and e[0] == "call" and e[1] in _PURE_ANYWHERE:
+        return ("call", e[1], tuple(_modulo_pure(a) for a in e[2]), None) + tuple(_modulo_pure(x) for x in e[4:])
+    return tuple(_modulo_pure(x) if isinstance(x, tuple) else x for x in e)
+
+
+def _has_unknown(e):
+    if not isinstance(e, tuple):
+        return False
+    if e and e[0] == "?":
+        return True
+    if e and e[0] == "var" and len(e) > 3 and isinstance(e[3], tuple) and e[3] and e[3][0] in ("phi", "mid"):
+        return True
+    return any(_has_unknown(x) for x in e if isinstance(x, tuple))
+
+
 def unq(e, depth=0):
     """Undo `?`: `(Try::branch(X)).@Continue.0...` is `X.@Ok.0...` for a Result X and `X.@Some.0...` for an
     Option X, and `X.ok_or(e)` / `ok_or_else` has the same payload as X.  (Whether the unwrapping succeeds is a
@@ -1033,6 +1172,11 @@ def unq(e, depth=0):
             return unq(("proj", b2[2][0], ("@Some", "0") + flds[2:]), depth + 1)
         if b2[0] == "call" and b2[1] in ("core::result::Result::<T, E>::map_err",) and b2[2] and flds[:1] == ("@Ok",):
             return unq(("proj", b2[2][0], flds), depth + 1)
+        # `(Ok(x) as Ok).0` is x (an aggregate read back through the variant it was built with)
+        if b2[0] == "agg" and len(flds) >= 2 and isinstance(flds[0], str) and flds[0][:1] == "@" and \
+                str(b2[1]).rsplit("::", 1)[-1] == flds[0][1:] and isinstance(flds[1], str) and flds[1].isdigit() and int(flds[1]) < len(b2[2]):
+            inner = b2[2][int(flds[1])]
+            return unq(("proj", inner, flds[2:]), depth + 1) if flds[2:] else unq(inner, depth + 1)
         return ("proj", base, flds) + tuple(e[3:])
     if k == "ref":
         return ("ref", unq(e[1], depth + 1)) + tuple(e[2:])
